@@ -37,7 +37,7 @@ def _with_seam(fn):
 
 
 CFG = dict(
-    imports=["From Verif.C38 Require Import Model Spec Multi MultiSpec."],
+    imports=["From Verif.C38 Require Import Names Model Spec Multi MultiSpec."],
     checker="check_case2",
     harness_dirs=["C19", "C38"],
     n=dict(quick=160, thorough=5000),
